@@ -146,6 +146,14 @@ theorem newborn_in_range (id : Nat) (ty : CellType R) (V xg xd : R) (hg : 0 ≤ 
       clamp3_range_division a ty.dvStd xd hd⟩
   · intro ha; simp [newborn, drawDivisionVolume, ha]
 
+/-- the daughters `cell_divider::divide_cell` returns: half the mother's target volume each, the mother's type, growth rate
+    and division volume drawn like those of any new cell (so `newborn_in_range` applies to them) -/
+theorem daughter_spec (id : Nat) (m : Cell R) (V xg xd : R) :
+    (daughterOf id m V xg xd).tv = m.tv / 2 ∧ (daughterOf id m V xg xd).ty = m.ty ∧ (daughterOf id m V xg xd).id = id ∧
+    (daughterOf id m V xg xd).g = (newborn id m.ty V xg xd).g ∧ (daughterOf id m V xg xd).vdiv = (newborn id m.ty V xg xd).vdiv := by
+  refine ⟨?_, rfl, rfl, rfl, rfl⟩
+  simp [daughterOf, Gen.CellCycle.daughterTargetVolume]
+
 /-! ### removal -/
 
 /-- the predicate of the removal phase is `V < min_vol` (volumes are absolute values: `compute_volume` returns `|vol|`) -/
@@ -201,6 +209,15 @@ theorem target_ge_min_history (fn : Fn R) (dt : R) (es : List (Event R)) (hne : 
     · exact ih hes _ _ c hc hs
 
 /-! ### ids over histories -/
+
+/-- the population `solver::solver` starts from: ids `0 … n-1` in list order, pairwise distinct, all below the counter -/
+theorem init_ids (fn : Fn R) (cs : List (Cell R)) :
+    (initPop fn cs).ids = List.range cs.length ∧ IdsBelow (initPop fn cs) ∧ (initPop fn cs).ids.Nodup := by
+  have h : (initPop fn cs).ids = List.range cs.length := by
+    simp only [initPop, Pop.ids, renumber_ids, List.range_eq_range']
+  refine ⟨h, ?_, ?_⟩
+  · intro i hi; rw [h, List.mem_range] at hi; exact hi
+  · rw [h]; exact List.nodup_range
 
 /-- the ids of a later population are ids of the earlier one or fresh ids issued from the counter on -/
 theorem ids_later (fn : Fn R) (dt : R) (es : List (Event R)) :
